@@ -167,7 +167,7 @@ func main() {
 		})
 	}
 	// random lists, offsets/lengths from a small range so that ties abound; <= 12 entries
-	n := c.N(1000, 30000)
+	n := c.N(1000, 6000)
 	for i := 0; i < n; i++ {
 		k := c.Rng.Range(0, 12)
 		in := make([]ent, k)
@@ -186,7 +186,7 @@ func main() {
 	}{{entity.Bold(), tg.MessageEntityBoldTypeID}, {entity.Italic(), tg.MessageEntityItalicTypeID},
 		{entity.Underline(), tg.MessageEntityUnderlineTypeID}, {entity.Strike(), tg.MessageEntityStrikeTypeID},
 		{entity.Code(), tg.MessageEntityCodeTypeID}, {entity.Spoiler(), tg.MessageEntitySpoilerTypeID}}
-	for i := 0; i < c.N(600, 12000); i++ {
+	for i := 0; i < c.N(600, 3000); i++ {
 		var b entity.Builder
 		type pre struct {
 			id  uint32
